@@ -27,7 +27,30 @@ type Project struct {
 	Module string       `json:"module"`
 	Convs  []*Conv      `json:"converters"`
 	Extra  scratch.Tree `json:"extra_files,omitempty"`
+	// Types overrides the default type declarations of every package (without package clause).
+	Types string `json:"types,omitempty"`
 }
+
+// WideTypes is a variant of the default types with two more fields on In and Out.
+const WideTypes = `
+type In struct {
+	V  int
+	W  string
+	X1 int
+	X2 int
+}
+
+type Out struct {
+	V  int
+	W  string
+	X1 int
+	X2 int
+}
+
+type OutBad struct {
+	V string
+}
+`
 
 const typesSrc = `
 type In struct {
@@ -67,7 +90,11 @@ func (p *Project) Tree() scratch.Tree {
 		files[k] = append(files[k], c)
 	}
 	for d := range dirs {
-		t[d+"/types.go"] = "package " + path.Base(d) + "\n" + typesSrc
+		ts := typesSrc
+		if p.Types != "" {
+			ts = p.Types
+		}
+		t[d+"/types.go"] = "package " + path.Base(d) + "\n" + ts
 	}
 	sort.Strings(order)
 	for _, k := range order {
